@@ -4,10 +4,14 @@
 -/
 import CimbaModel.Sim.Basic
 import CimbaModel.HashHeap.Orders
+import CimbaModel.Sim.S3Grant
+import CimbaModel.Sim.S3Signals
+import CimbaModel.Sim.S3All
 
 namespace CimbaModel.Props.C08
 open CimbaModel CimbaModel.Sim CimbaModel.Event CimbaModel.Generated CimbaModel.HashHeap.SpecOrders
-open CimbaModel.HashHeap (HTag Item Order HH)
+open CimbaModel.HashHeap (HTag Item Order HH WF abs)
+open CimbaModel.Sim.S3 CimbaModel.KPQ
 
 /-- the demand predicates the guards evaluate are exactly the documented availability conditions -/
 theorem demands_are_availability (w : World) :
@@ -18,5 +22,217 @@ theorem demands_are_availability (w : World) :
     (∀ k x, w.pqs[k]? = some x → (evalDemand w (.pqContent k) = true ↔ 0 < x.queue.count) ∧
                                   (evalDemand w (.pqSpace k) = true ↔ x.queue.count < x.cap)) := by
   refine ⟨?_, ?_, ?_⟩ <;> intro i x hx <;> simp [evalDemand, hx]
+
+
+/-! ### a signal serves the front waiter whenever it can
+
+`AllGWF w`: every waiting list is a well-formed hashheap (C02); `demandOf gd k`: the demand predicate registered for
+key `k`; `gd.q.tag 1`: the front entry (the minimum of the waiting set under the documented order, see C06). -/
+
+/-- `signal_grants_if_satisfiable`: after a complete signal of `g` (the guard's own part, then every observer,
+    recursively), if the waiting list was non-empty and the front waiter's demand held, that waiter is no longer queued
+    and its wake-up (aRes, SUCCESS) is pending *at the current time* with its current priority; queues only shrank, the
+    clock did not move -/
+theorem signal_grants_if_satisfiable {fuel : Nat} {w : World} {g : Nat} {gd : Guard} (hg : w.guards[g]? = some gd)
+    (hall : AllGWF w) (hpos : 0 < gd.q.count) (hd : evalDemand w (demandOf gd (gd.q.tag 1).key) = true) :
+    (∃ gd', (guardSignal (fuel + 1) w g).guards[g]? = some gd' ∧ (gd.q.tag 1).key ∉ keys (abs gd'.q) ∧
+        ∀ x ∈ abs gd'.q, x ∈ abs gd.q) ∧
+    mkEv (w.ev.counter + 1) aRes (gd.q.tag 1).key sigSuccess w.now (w.proc ((gd.q.tag 1).key - 1)).prio ∈
+      (guardSignal (fuel + 1) w g).ev.pending ∧
+    (guardSignal (fuel + 1) w g).now = w.now := by
+  obtain ⟨h1, h2, h3, _⟩ := guardSignal_grants (fuel := fuel) hg hall hpos hd
+  exact ⟨h1, h2, h3⟩
+
+/-- … otherwise (empty list, or the front waiter's demand does not hold) the guard's own part changes neither the queue
+    nor the event set: the signal is just the signal of the observers -/
+theorem signal_without_grant {fuel : Nat} {w : World} {g : Nat} {gd : Guard} (hg : w.guards[g]? = some gd)
+    (hwf : WF guard_queue_check gd.q) (h : gd.q.count = 0 ∨ evalDemand w (demandOf gd (gd.q.tag 1).key) = false) :
+    guardSignal (fuel + 1) w g = gd.observers.foldl (fun w o => guardSignal fuel w o) w :=
+  guardSignal_no_grant hg hwf h
+
+/-- whatever a signal does (observers included): it only dequeues waiters whose demand holds and schedules their
+    wake-ups; it never touches processes, objects, the clock, nor removes an event -/
+theorem signal_footprint (fuel : Nat) (w : World) (g : Nat) (hall : AllGWF w) : SigRel w (guardSignal fuel w g) :=
+  guardSignal_rel fuel w g hall
+
+/-! ### a grant that arrives too late is passed on -/
+
+/-- `grant_passed_on`: a process `p` that leaves its wait on `g` for another reason (timeout, interrupt, stop) after it
+    has been dequeued: its pending grant(s) are removed from the event queue — every other pending event stays — and the
+    guard is signalled again, all inside `guardWithdraw` -/
+theorem grant_passed_on {w : World} {g : Nat} {gd : Guard} (hg : w.guards[g]? = some gd) (hwf : WF guard_queue_check gd.q)
+    {p : Pid} (hp : p + 1 ∉ keys (abs gd.q)) (hi : EvInv w.ev)
+    (hgrant : ∃ e ∈ w.ev.pending, kindMatch p aRes (some sigSuccess) e = true) :
+    guardWithdraw w g p = signal (cancelKindFor w p aRes (some sigSuccess)).1 g ∧
+    (∀ e ∈ (cancelKindFor w p aRes (some sigSuccess)).1.ev.pending, e.key ≤ w.ev.counter →
+        kindMatch p aRes (some sigSuccess) e = false) ∧
+    (∀ e ∈ w.ev.pending, kindMatch p aRes (some sigSuccess) e = false →
+        e ∈ (cancelKindFor w p aRes (some sigSuccess)).1.ev.pending) ∧
+    (cancelKindFor w p aRes (some sigSuccess)).1.guards = w.guards ∧
+    (cancelKindFor w p aRes (some sigSuccess)).1.now = w.now := by
+  obtain ⟨h1, hrel, h2, h3⟩ := guardWithdraw_passes_on hg hwf hp hi hgrant
+  exact ⟨h1, h2, h3, hrel.guards, hrel.now⟩
+
+/-- … so the next waiter, if it can be served, is served in that same step (same simulated instant) -/
+theorem grant_passed_on_serves_next {w : World} {g : Nat} {gd : Guard} (hg : w.guards[g]? = some gd) (hall : AllGWF w)
+    {p : Pid} (hp : p + 1 ∉ keys (abs gd.q)) (hi : EvInv w.ev)
+    (hgrant : ∃ e ∈ w.ev.pending, kindMatch p aRes (some sigSuccess) e = true)
+    (hpos : 0 < gd.q.count) (hd : evalDemand w (demandOf gd (gd.q.tag 1).key) = true) :
+    (∃ gd', (guardWithdraw w g p).guards[g]? = some gd' ∧ (gd.q.tag 1).key ∉ keys (abs gd'.q)) ∧
+    (∃ e ∈ (guardWithdraw w g p).ev.pending, e.item.a = aRes ∧ e.item.b = (gd.q.tag 1).key ∧
+      e.item.c = encSig sigSuccess ∧ e.d = w.now ∧ e.i = (w.proc ((gd.q.tag 1).key - 1)).prio) ∧
+    (guardWithdraw w g p).now = w.now :=
+  guardWithdraw_serves_next hg hall hp hi hgrant hpos hd
+
+/-- a waiter that is still queued when it leaves is just removed (nothing was granted, nothing to pass on) -/
+theorem withdraw_queued {w : World} {g : Nat} {gd : Guard} (hg : w.guards[g]? = some gd) (hwf : WF guard_queue_check gd.q)
+    {p : Pid} (hp : p + 1 ∈ keys (abs gd.q)) :
+    ∃ q', WF guard_queue_check q' ∧ (abs q').Perm (KPQ.remove (abs gd.q) (p + 1)) ∧ guardWithdraw w g p = setGuardQ w g q' :=
+  guardWithdraw_queued hg hwf hp
+
+/-! ### every state change that can satisfy a demand signals the right guard in the same step -/
+
+theorem release_signals {w : World} {p : Pid} {r : Nat} {x : Res} (hx : w.res[r]? = some x) (hh : x.holder = some p) :
+    execCmd w p (.release r) =
+      (signal (recordRes { (removeHeld w p (.res r)).1 with
+        res := (removeHeld w p (.res r)).1.res.set! r { x with holder := none } } r) x.guard, .ret 0 "") :=
+  S3.release_signals hx hh
+
+theorem drop_resource_signals {w : World} (p : Pid) {r : Nat} {x : Res} (hx : w.res[r]? = some x) :
+    dropResources w p = (w.proc p).held.foldl (dropStep p) (w.modProc p fun x => { x with held := [] }) ∧
+    dropStep p w (.res r) = signal (recordRes { w with res := w.res.set! r { x with holder := none } } r) x.guard ∧
+    ∀ pl, dropStep p w (.pool pl) = poolDropHolder w pl p :=
+  ⟨dropResources_eq w p, dropStep_res_signals p hx, fun _ => rfl⟩
+
+theorem pool_drop_signals {w : World} {pl : Nat} {p : Pid} {x : Pool} {i : Nat} {h' : HH} {b : Bool}
+    (hx : w.pools[pl]? = some x) (hi : HashHeap.findIndex x.holders (p + 1) = .ok (i + 1))
+    (hr : HashHeap.remove holder_queue_check x.holders (p + 1) = .ok (h', b)) :
+    poolDropHolder w pl p =
+      signal (recordPool { w with pools := w.pools.set! pl { x with inUse := x.inUse - (x.holders.heap.getD (i + 1) {}).item.b, holders := h' } } pl) x.guard :=
+  poolDropHolder_signals hx hi hr
+
+theorem pool_release_signals {w : World} {p : Pid} {pl n : Nat} {x : Pool} (hx : w.pools[pl]? = some x)
+    (hn : ¬ (n = 0 ∨ n > heldAmount w pl p)) :
+    ∃ w1 : World, execCmd w p (.poolRelease pl n) =
+      (signal (recordPool (setPoolInUse w1 pl (x.inUse - n)) pl) x.guard, .ret 0 "") :=
+  poolRelease_signals hx hn
+
+theorem pool_rollback_signals {w : World} {p : Pid} {pl initially : Nat} {x : Pool} (hx : w.pools[pl]? = some x) :
+    (initially > 0 → heldAmount w pl p > initially →
+      poolRollback w p pl initially =
+        signal (recordPool (setPoolInUse (setHeldAmount w pl p initially) pl
+          (x.inUse - (heldAmount w pl p - initially))) pl) x.guard) ∧
+    (∀ h' found, HashHeap.remove holder_queue_check x.holders (p + 1) = .ok (h', found) →
+      ∃ w1 : World, poolRollback w p pl 0 = signal w1 x.guard ∧
+        w1.pools = (recordPool (setPoolInUse w pl (x.inUse - heldAmount w pl p)) pl).pools.modify pl
+          (fun y => { y with holders := h' })) :=
+  ⟨fun h0 hs => poolRollback_surplus_signals hx h0 hs, fun _ _ hr => poolRollback_zero_signals hx hr⟩
+
+theorem pool_acquire_leftover_signals {w : World} {p : Pid} {pl rem initially : Nat} {preempt : Bool} {x : Pool}
+    (hx : w.pools[pl]? = some x) (ha : x.cap - x.inUse ≥ rem) :
+    poolLoop w p pl rem initially preempt =
+      (signal (poolUpdateRecord (recordPool (setPoolInUse w pl (x.inUse + rem)) pl) pl p rem) x.guard,
+       .ret sigSuccess "") :=
+  poolLoop_done_signals hx ha
+
+theorem buffer_get_signals {w : World} {p : Pid} {b rem got : Nat} {x : Buf} (hx : w.bufs[b]? = some x) :
+    (x.level ≥ rem →
+      (bufGetLoop w p b rem got).1 =
+        (let w1 := signal (recordBuf { w with bufs := w.bufs.set! b { x with level := x.level - rem, getTotal := x.getTotal + rem } } b) x.rear
+         if x.level - rem > 0 then signal w1 x.front else w1)) ∧
+    (¬ x.level ≥ rem → x.level > 0 →
+      (bufGetLoop w p b rem got).1 =
+        (guardWaitEnter (signal (signal (recordBuf { w with bufs := w.bufs.set! b { x with level := 0, getTotal := x.getTotal + x.level } } b) x.rear) x.rear) x.front p (.bufContent b)).modProc p
+          (fun y => { y with blocked := some (.bufGet b (rem - x.level) (got + x.level)) })) :=
+  ⟨fun hl => bufGet_done_signals hx hl, fun hl hpos => bufGet_partial_signals hx hl hpos⟩
+
+theorem buffer_put_signals {w : World} {p : Pid} {b rem left : Nat} {x : Buf} (hx : w.bufs[b]? = some x) :
+    (x.cap - x.level ≥ rem →
+      (bufPutLoop w p b rem left).1 =
+        (let w1 := signal (recordBuf { w with bufs := w.bufs.set! b { x with level := x.level + rem, putTotal := x.putTotal + rem } } b) x.front
+         if x.level + rem < x.cap then signal w1 x.rear else w1)) ∧
+    (¬ x.cap - x.level ≥ rem → x.level < x.cap →
+      (bufPutLoop w p b rem left).1 =
+        (guardWaitEnter (signal (signal (recordBuf { w with bufs := w.bufs.set! b { x with level := x.cap, putTotal := x.putTotal + (x.cap - x.level) } } b) x.front) x.front) x.rear p (.bufSpace b)).modProc p
+          (fun y => { y with blocked := some (.bufPut b (rem - (x.cap - x.level)) (left - (x.cap - x.level))) })) :=
+  ⟨fun hl => bufPut_done_signals hx hl, fun hl hpos => bufPut_partial_signals hx hl hpos⟩
+
+theorem object_queue_signals {w : World} {p : Pid} {q : Nat} {x : OQ} (hx : w.oqs[q]? = some x) :
+    (∀ o rest, x.items = o :: rest →
+      (oqGetLoop w p q).1 =
+        signal (recordOQ { w with oqs := w.oqs.set! q { x with items := rest, gotLog := x.gotLog ++ [o] } } q) x.rear) ∧
+    (∀ obj, x.items.length < x.cap →
+      (oqPutLoop w p q obj).1 =
+        signal (recordOQ { w with oqs := w.oqs.set! q { x with items := x.items ++ [obj], putLog := x.putLog ++ [obj] } } q)
+          x.front) :=
+  ⟨fun _ _ hi => oqGet_signals hx hi, fun _ hl => oqPut_signals hx hl⟩
+
+theorem priority_queue_signals {w : World} {p : Pid} {k : Nat} {x : PQ} (hx : w.pqs[k]? = some x) :
+    (∀ q' t, x.queue.count > 0 → HashHeap.dequeue compare_func x.queue = .ok (q', some t) →
+      (pqGetLoop w p k).1 =
+        signal (recordPQ { w with pqs := w.pqs.set! k { x with queue := q', gotLog := x.gotLog ++ [t.key] } } k) x.rear) ∧
+    (∀ obj v pri q' h, x.queue.count < x.cap →
+      HashHeap.enqueue compare_func x.queue ⟨obj, 0, 0, 0⟩ 0 0 pri = .ok (q', h) →
+      (pqPutLoop w p k obj pri v).1 =
+        signal (recordPQ (setVar { w with pqs := w.pqs.set! k { x with queue := q', putLog := x.putLog ++ [h] } } p v h) k)
+          x.front) ∧
+    (∀ v q', getVar w p v ≠ 0 → HashHeap.remove compare_func x.queue (getVar w p v) = .ok (q', true) →
+      (execCmd w p (.pqCancel k v)).1 =
+        signal (recordPQ { w with pqs := w.pqs.set! k { x with queue := q', cancelLog := x.cancelLog ++ [getVar w p v] } } k) x.rear) :=
+  ⟨fun _ _ hc hd => pqGet_signals hx hc hd, fun _ _ _ _ _ hc he => pqPut_signals hx hc he,
+   fun _ _ hv hr => pqCancel_signals hx hv hr⟩
+
+/-! ### quiescence
+
+Full statement (`grant_invariant`, `quiescent_ok` of DESIGN.md): `GrantInv w` holds in every reachable fault-free state,
+hence `dispatch w = none` implies that no front waiter of a non-condition guard has a true demand.
+Proved here: the second half, from `GrantInv`.  Missing: the preservation of `GrantInv` by `dispatch`, which needs, for
+every object type, that the process resumed by a grant either makes the front demand false or signals again before it
+yields (the per-primitive equations above are exactly those signals), together with the ownership invariant of grants
+(`NoStaleInv`, C04) to identify the pending grant with a waiter of this guard. -/
+
+theorem no_more_events_iff (w : World) : dispatch w = none ↔ w.ev.pending = [] := dispatch_none_iff w
+
+theorem quiescent_ok_partial {w : World} (hgi : GrantInv w) (hq : dispatch w = none) (g : Nat) (gd : Guard)
+    (hg : w.guards[g]? = some gd) (hc : gd.isCond = false) (hpos : 0 < gd.q.count) :
+    evalDemand w (demandOf gd (gd.q.tag 1).key) = false :=
+  quiescent_of_grantInv hgi hq g gd hg hc hpos
+
+/- non-vacuity: `GrantInv` and quiescence are satisfiable together (the initial world), and a world with a pending grant
+   and a non-queued grantee exists for `grant_passed_on` -/
+example : GrantInv {} ∧ dispatch {} = none := by
+  refine ⟨?_, by decide⟩
+  intro g gd hg; simp at hg
+
+example : ∃ (w : World) (p : Pid), EvInv w.ev ∧ ∃ e ∈ w.ev.pending, kindMatch p aRes (some sigSuccess) e = true := by
+  refine ⟨pushEv {} aRes 1 sigSuccess 0 0, 0, ?_, _, List.mem_cons_self, by decide⟩
+  exact pushEv_evinv (w := {}) _ _ _ _ _ (by decide) (Event.init_inv 0)
+
+
+/-! ### in every reachable state
+
+`AllInv` (Props/C04, Sim/S3All) is an invariant of `dispatch` whose clauses include `AllGWF` and the ownership of
+grants; so the hypotheses of the signal theorems hold at every signal of every run, and a grant is never lost or
+duplicated: -/
+
+theorem guards_wellformed_reachable {w0 w : World} (hr : Reach w0 w) (h0 : AllInv w0) : AllGWF w := (h0.reach hr).g.gw
+
+theorem signal_footprint_reachable {w0 w : World} (hr : Reach w0 w) (h0 : AllInv w0) (fuel : Nat) (g : Nat) :
+    SigRel w (guardSignal fuel w g) := signal_footprint fuel w g (guards_wellformed_reachable hr h0)
+
+/-- a pending grant always has an owner that will consume it or pass it on: its process is suspended in a wait on the
+    guard, still awaits it, is off the waiting list, and no second grant is pending for it -/
+theorem grant_has_owner {w0 w : World} (hr : Reach w0 w) (h0 : AllInv w0) {e : HTag} (he : e ∈ w.ev.pending)
+    (ha : e.item.a = aRes) (hc : e.item.c = 0) :
+    ∃ p g f, e.item.b = p + 1 ∧ (w.proc p).blocked = some f ∧ FrameOn w f g ∧ guardAw w p = [.guard g] ∧
+      ¬ queued w g (p + 1) ∧ (∀ g', ¬ queued w g' (p + 1)) ∧
+      ∀ e' ∈ w.ev.pending, isGrant e' → e'.item.b = p + 1 → e' = e :=
+  (h0.reach hr).g.grant_owned he (Or.inl ⟨ha, hc⟩)
+
+/-- whoever is in a waiting list is a suspended process that awaits exactly that guard (so a signal never wakes a
+    process that is not waiting) -/
+theorem waiter_registered {w0 w : World} (hr : Reach w0 w) (h0 : AllInv w0) {g k : Nat} (hq : queued w g k) :
+    ∃ p f, k = p + 1 ∧ p < w.procs.size ∧ Await.guard g ∈ (w.proc p).awaits ∧ guardAw w p = [.guard g] ∧
+      (w.proc p).blocked = some f ∧ FrameOn w f g := (h0.reach hr).g.queued_means hq
 
 end CimbaModel.Props.C08
